@@ -183,6 +183,7 @@ pub fn codegen_inputs(which: &str, seed: u64, n: usize, extra: &[String]) -> Vec
 }
 
 pub fn cmd_codegen(which: &str, _seed: u64, _n: usize, out: &mut dyn Write, dirs: &[String]) {
+    if dirs.first().map(|d| d == "c14probe").unwrap_or(false) { return cmd_codegen_probe(which, _seed, _n, out); }
     let progs = if dirs.first().map(|d| d == "printctx").unwrap_or(false) {
         print_context_programs(_seed, _n.max(24))
     } else {
@@ -193,6 +194,24 @@ pub fn cmd_codegen(which: &str, _seed: u64, _n: usize, out: &mut dyn Write, dirs
     };
     for (k, (name, prog)) in progs.into_iter().enumerate() {
         let lc = axcut2backend::fresh_labels::fresh_label();
+        emit_codegen_case(which, _seed, k, &name, prog, lc, out);
+    }
+}
+
+/// C14 probe mode (`c14probe` as first extra argument): n witnesses of the known finding
+/// label-collision-name-digits, instantiated for the current value of the label counter (see c14probe.rs)
+fn cmd_codegen_probe(which: &str, seed: u64, n: usize, out: &mut dyn Write) {
+    for k in 0..n.max(2) {
+        let variant = k % 2;
+        let Some((lc, text)) = crate::c14probe::probe(which, variant) else { continue };
+        let Ok(prog) = pipe::linearized(&text) else { continue };
+        let name = format!("c14probe:{}:{}", if variant == 0 { "clause-clause" } else { "table-clause" }, lc);
+        emit_codegen_case(which, seed, k, &name, prog, lc, out);
+    }
+}
+
+fn emit_codegen_case(which: &str, _seed: u64, k: usize, name: &str, prog: axcut::syntax::Prog, lc: usize, out: &mut dyn Write) {
+    {
         let arity = prog.defs.first().map(|d| d.context.bindings.len()).unwrap_or(0);
         let mut rng = crate::rng::Rng::new(_seed.wrapping_add(k as u64));
         let mut tuples = String::from("(");
@@ -206,7 +225,7 @@ pub fn cmd_codegen(which: &str, _seed: u64, _n: usize, out: &mut dyn Write, dirs
             tuples.push(')');
         }
         tuples.push(')');
-        let input = format!("({} {} {} {})", crate::sexp::quote(&name), dbg(&prog), lc, tuples);
+        let input = format!("({} {} {} {})", crate::sexp::quote(name), dbg(&prog), lc, tuples);
         let p2 = prog.clone();
         let w = which.to_string();
         let res = catch(move || match w.as_str() {
